@@ -240,7 +240,12 @@ def run(ctx):
               dict(cls="ResNet", D=2, depth=1, input=S1[0], output=S1[1], use_group_norm=True, activation="relu", use_bias="auto", num_conv=1)]
     if ctx.thorough():
         mspecs += [dict(cls="UNet", D=2, depth=1, input=S2[0], output=S2[1], use_group_norm=False, activation="gelu", use_bias="mean", num_downsamples=1, num_conv=1),
-                   dict(cls="DilResNet", D=2, depth=1, input=S1[0], output=S1[1], use_group_norm=False, activation="relu", use_bias="auto")]
+                   dict(cls="DilResNet", D=2, depth=1, input=S1[0], output=S1[1], use_group_norm=False, activation="relu", use_bias="auto"),
+                   dict(cls="UNet", D=3, depth=1, input=S1[0], output=S1[1], use_group_norm=False, activation="relu", use_bias="auto", num_downsamples=1, num_conv=1, square=False),
+                   dict(cls="ResNet", D=3, depth=1, input=S1[0], output=S1[1], use_group_norm=True, activation="relu", use_bias="auto", num_conv=1),
+                   dict(cls="ResNet", D=2, depth=2, input=S2[0], output=S2[1], use_group_norm=True, activation="gelu", use_bias="mean", num_conv=2, num_blocks=2, preactivation_order=False),
+                   dict(cls="UNet", D=2, depth=1, input=S1[0], output=S1[1], use_group_norm=True, activation="relu", use_bias="auto", num_downsamples=2, num_conv=1),
+                   dict(cls="ResNet", D=2, depth=1, input=S2[0], output=S2[1], use_group_norm=True, activation="relu", use_bias="auto", num_conv=1, missing=[(0, 1)])]
     jobs += [(ctx.repo, s) for s in mspecs]
     by = {}
     for job, r in ctx.pairs(taint_worker, jobs, chunk=1):
